@@ -129,6 +129,9 @@ def modify_logits_for_top_p_filtering(logits, top_p):
 
     # Remove tokens with cumulative top_p above the threshold (token with 0 are kept)
     sorted_indices_to_remove = cumulative_probs <= (1 - top_p)
+    # Always keep the most likely token: in float32 `1 - top_p` rounds to 1.0 for a tiny
+    # positive top_p, which would otherwise remove every token and yield NaN probabilities
+    sorted_indices_to_remove[..., -1] = False
 
     # Scatter sorted tensors to original indexing
     indices_to_remove = sorted_indices_to_remove.scatter(
